@@ -12,6 +12,8 @@ from . import common
 from .c01 import word_tables
 from .c07 import stripset
 
+from .layouts import dispatch_exhaustive
+
 META = {
     'explanation': (
         "Word-by-word accounting on arbitrary text is not decided. Decided "
@@ -41,6 +43,7 @@ def check(ctx):
     ctx.attempt(_chunker)
     ctx.attempt(_preprocess)
     ctx.attempt(_cleanup)
+    ctx.attempt(dispatch_exhaustive)
 
 
 def _marker_blocks(ctx):
@@ -194,6 +197,10 @@ def _wildcards(sub, out, inside_repeat=False):
             lo, hi, s2 = av
             if len(s2) == 1 and s2[0][0] in (C.ANY,) and hi > 1:
                 out.append(rx.show([(op, av)]))
+            elif len(s2) == 1 and s2[0][0] is C.IN and hi > 3 and any(
+                    o is C.CATEGORY and v in (C.CATEGORY_WORD, C.CATEGORY_NOT_SPACE, C.CATEGORY_NOT_DIGIT) for o, v in s2[0][1]):
+                # \w+ / \S+ / \D+ : any word
+                out.append(rx.show([(op, av)]))
             elif len(s2) == 1 and s2[0][0] is C.IN and any(o is C.NEGATE for o, _ in s2[0][1]) and hi > 3:
                 out.append(rx.show([(op, av)]))
             else:
@@ -209,8 +216,7 @@ def _preprocess(ctx):
     fi = ctx.repo.func('plss_preprocess:sub_scrubber')
     subs = [c for c in walk_local(fi.node) if isinstance(c, ast.Call) and isinstance(c.func, ast.Attribute)
             and c.func.attr == 'sub' and norm(c.func.value) == 'rgx']
-    repl = [c for c in walk_local(fi.node) if isinstance(c, ast.Call) and isinstance(c.func, ast.Attribute)
-            and c.func.attr == 'replace']
+    repl = common.replace_by_text(ctx, fi)
     if subs and not repl:
         ctx.ok('SINK', 'sub_scrubber rewrites exactly the matched spans (re.sub with a callback)')
         cb = subs[0].args[0]
@@ -227,7 +233,7 @@ def _preprocess(ctx):
                       f"`{norm(repl[0])[:70]}` replaces by text: other occurrences of the same characters are rewritten too",
                       key="SINK|sub_scrubber|bytext", where=common.loc(fi, repl[0]))
     else:
-        raise AnalysisError("sub_scrubber: substitution call not found")
+        ctx.undecided('SINK', 'sub_scrubber rewrites exactly the matched spans', 'neither rgx.sub(callback) nor a by-text replacement')
     # wildcards inside a replaced span
     sc = list(ctx.fold.get('plss_preprocess', 'SCRUBBER_REGEXES')) + [ctx.fold.get('plss_preprocess', 'OCR_SCRUBBER')]
     for rv in sc:
@@ -242,6 +248,17 @@ def _preprocess(ctx):
                               key=f"SINK|{rv.name}|wildcard|{w}", where=rv.module)
         else:
             ctx.ok('SINK', f"{rv.name}: the replaced span consists of Twp/Rge syntax only (no wildcard)")
+    # the spans of section / Twp/Rge references are cut out of the description
+    # by the marker walk: a word wildcard inside those regexes swallows
+    # arbitrary words without a flag
+    for modsuf, name in (('rgxlib.sec', 'multisec_regex'), ('rgxlib.twprge', 'twprge_regex')):
+        rv = ctx.fold.get(modsuf, name)
+        out = []
+        _wildcards(rx.parse(rv.pattern, rv.flags), out)
+        ctx.check(not out, 'SINK', f"{name}: the reference span consists of reference syntax only (no word wildcard)",
+                  detail_bad=f"{name} contains {sorted(set(out))}: whatever word matches it becomes part of the section / "
+                             f"Twp/Rge reference and disappears from every description without a flag",
+                  key=f"SINK|{name}|wildcard|{','.join(sorted(set(out)))}", where=rv.module)
     rw = ctx.repo.func('plss_preprocess:reduce_whitespace')
     pats = [(ctx.fold.eval(c.args[0], {}, rw.module.name), ctx.fold.eval(c.args[1], {}, rw.module.name))
             for c in walk_local(rw.node) if isinstance(c, ast.Call) and dotted(c.func) == 're.sub']
